@@ -49,8 +49,8 @@ ASSUMPTIONS = [
 EXPLANATION = ('every byte, every short text in every row layout and every alphabet pair is pushed through every '
                'input form of the real encoders and compared with "member of the alphabet / upper-cased text"')
 MANIFEST_TEXT = (
-    'Exhaustive: all 256 bytes x 10 predefined alphabet encodings (alone, before and after a valid symbol) through 8 '
-    'input forms; every text of <= 3 (quick) / 4 (thorough) characters over a 6-symbol sub-alphabet (incl. lower case '
+    'Exhaustive: all 256 bytes x 10 predefined alphabet encodings (alone, before and after a valid symbol, in a second row) '
+    'through 9 input forms; every text of <= 3 (quick) / 4 (thorough) characters over a 6-symbol sub-alphabet (incl. lower case '
     'and non-letter symbols) in every layout of 1..3 rows, and the same with one foreign character of each class at '
     'every position (must raise); every ordered pair of alphabets (+ASCII target) x every text of <= 3 / 4 characters '
     '(3 for the 21- and 16-symbol alphabets) over the full source alphabet x flat / scalar / ragged layouts through '
@@ -308,10 +308,6 @@ def check_encode(res, case):
 
 
 # ---------------------------------------------------------------- part: retarget
-def _layout_name(layout):
-    return layout if isinstance(layout, str) else 'ragged'
-
-
 def build_source(src_enc, text, layout):
     """-> (library object holding `text` under the source encoding, expected rows)"""
     bnp = lib()['bnp']
@@ -525,7 +521,8 @@ def bounds(tier, seed):
     quick = tier == 'quick'
     return {
         'alphabets': dict(A.ALPHABETS), 'numeric_encodings': dict(A.NUMERIC),
-        'bytes': 'all 256 x 10 alphabets x contexts {b, s0+b, b+s0} x all input forms; whole-alphabet texts',
+        'bytes': 'all 256 x 10 alphabets x contexts {[b], [s0 b], [b s0], [s0 | b], [b | s0 s0]} (s0 = first symbol, | = row '
+                 'break) x all applicable input forms; whole-alphabet texts (upper, lower, reversed, doubled)',
         'strings_max_chars': 3 if quick else 4, 'strings_max_rows': MAX_ROWS,
         'strings_sub_alphabets': dict(A.SUB_ALPHABET),
         'foreign_classes': list(A.FOREIGN_CLASSES),
@@ -536,7 +533,8 @@ def bounds(tier, seed):
             'ragged [k,n-k] with k=(VERIF_SEED mod (n+1))' if quick else
             'texts <= 3 chars: flat, scalar, ragged [n], every 2-row split, [1,..,1]; 4 chars: flat, ragged [4], '
             'ragged [2,2]'),
-        'numeric': 'all 256 bytes x 3 offset encodings x contexts x 7 input forms',
+        'numeric': 'all 256 bytes x 3 offset encodings x 5 contexts x 7 input forms',
+        'retarget_apis': [a for a, _ in APIS],
         'input_forms': [n for n, _, _ in FORMS],
     }
 
